@@ -751,7 +751,7 @@ class MinMaxAggregator:
             if (
                 b.ast_type == ASTType.Literal
                 and b.atom.ast_type == ASTType.BodyAggregate
-                and b.atom.function in (AggregateFunction.Sum, AggregateFunction.SumPlus)
+                and b.atom.function == AggregateFunction.Sum  # the chain differences are negative for #min, not for #sum+
             ):
                 body.append(self._replace_results_in_sum_agg(b))
             else:
